@@ -29,7 +29,11 @@ ASSUMPTIONS = {
     "A12": "distinct parameters of a function under contract do not alias each other",
     "A13": "solvers: a query with sequence/string operations counts as proved only when a cvc5 (1.0.3, 1.0.3 --seq-array=lazy or 1.4) "
            "answers unsat -- on the query itself or on z3's quantifier-free certificate (ground part + the lemma instances of z3's "
-           "refutation); z3 5.1 alone is trusted only for pure datatype/arithmetic queries",
+           "refutation); z3 5.1 alone is trusted only for pure datatype/arithmetic queries; sequence queries run in killable child "
+           "processes (z3-new CLI, /usr/bin/cvc5, cvc5 wheel)",
+    "A14": "the VC generator itself (pyvc: ast -> VCs; Python semantics of the accepted subset as listed in DESIGN 2.2-2.6, dicts as "
+           "association lists with first-match lookup, ownership discipline for in-place mutation) is trusted; it is cross-checked "
+           "against CPython by evaluating every contract on the real function (function_contract_evaluations) and by canaries",
 }
 
 
@@ -351,7 +355,13 @@ def main(pid, tier, seed, cfg):
     samples = []
     for b in bounded_res:
         samples.extend(b["samples"][:3])
-    trusted = [ASSUMPTIONS[a] for a in cfg.get("assumes", [])] + list(cfg.get("trusted", [])) + assumed_lemmas
+    assumes = list(cfg.get("assumes", []))
+    if cfg.get("modules"):
+        # assumptions of the VC generator itself hold for every property that has functions under contract
+        for a in ("A1", "A2", "A10", "A12", "A13", "A14"):
+            if a not in assumes:
+                assumes.append(a)
+    trusted = [ASSUMPTIONS[a] for a in sorted(assumes, key=lambda x: int(x[1:]))] + list(cfg.get("trusted", [])) + assumed_lemmas
     proof_block = dict(
         obligations=n_obl, discharged=n_dis,
         functions_under_contract=functions, lemmas=[dict(name=l["name"], status=l["status"], time_s=l.get("time_s")) for l in lemmas],
